@@ -123,8 +123,8 @@ Example C16_print_to_self :      (* print_to(s, 1, "%s-%s", s, s) on "abc": piec
   spec_step [97; 98; 99] (OPrint 1 [PSelf; PLit [45]; PSelf]) = ([97; 97; 98; 99; 45; 97; 97; 98; 99; 45], SNat 10).
 Proof. vm_compute. reflexivity. Qed.
 
-Theorem C16_print_to_self_before_repair_undefined : forall b fa pos r,
-  m_print_to fa false b pos (PSelf :: r) = None.
+Theorem C16_print_to_self_before_repair_undefined : forall b fa cap hw pos r,
+  m_print_to fa false cap hw b pos (PSelf :: r) = None.
 Proof. exact format_self_old_shape_undefined. Qed.
 Print Assumptions C16_print_to_self_before_repair_undefined.
 
@@ -154,6 +154,31 @@ Theorem C16_self_argument_before_repair_undefined : forall b fa fc,
   m_assign_self fa false b = None /\ m_concat_self fc false b = None.
 Proof. exact self_argument_old_shapes_undefined. Qed.
 Print Assumptions C16_self_argument_before_repair_undefined.
+
+(* why further code shapes are read as the same model by tools/genx_str.py *)
+Theorem C16_shape_rem_empty_needle_returns : forall rc, (forall hl pl nl, rc hl pl nl = (pl - nl + 1)%Z) ->
+  forall chk b s, repr b s -> m_rem rc chk b [] = (b, SUnit).
+Proof. exact rem_empty_needle_is_noop. Qed.
+Print Assumptions C16_shape_rem_empty_needle_returns.
+
+Theorem C16_shape_rem_tail_length : forall v h i, find_sub v h = Some i ->
+  length (skipn (i + length v) h) = (length h - i) - length v.
+Proof. exact tail_length_after_match. Qed.
+Print Assumptions C16_shape_rem_tail_length.
+
+Theorem C16_shape_concat_moves_terminator : forall (s : list nat) t, length s <= length t ->
+  let b := map Some s ++ Some 0 :: t in
+  let n := length s in
+  memmove b n 0 (n + 1) =
+  match memmove b n 0 n with Some b' => write b' (n + n) [0] | None => None end.
+Proof. exact concat_self_move_with_terminator. Qed.
+Print Assumptions C16_shape_concat_moves_terminator.
+
+(* a local buffer in String_Format_To whose threshold is off by one (seeded change C16-2) *)
+Theorem C16_format_local_buffer_off_by_one_undefined : forall fa b pos text,
+  length text = 64 -> m_format_to fa 64 (fun size cap => cap <? size) b pos text = None.
+Proof. exact format_local_buffer_off_by_one_undefined. Qed.
+Print Assumptions C16_format_local_buffer_off_by_one_undefined.
 
 (* the code before the repair of String_Rem (D6) *)
 Theorem C16_rem_before_repair_refuted :
